@@ -3,6 +3,7 @@ package main
 
 import (
 	"fmt"
+	"runtime/debug"
 	"go/types"
 	"os"
 	"sort"
@@ -81,6 +82,7 @@ type Engine struct {
 	overrides  map[string]*Fn
 	stdin      *stdinModel
 	lastPanicMsg string
+	reportedPanic bool
 
 	maxConcretize int
 	notesMapRange int
@@ -507,7 +509,12 @@ func (e *Engine) runPath(h *ssa.Function, prefix []uint64, res *Result) {
 				kind, label, msg = "violation", pe.label, pe.msg
 				extra = pe.extra
 			default:
-				panic(r)
+				// an engine bug or an SSA shape the interpreter does not handle: the path is inconclusive
+				kind, msg = "unsupported", fmt.Sprintf("engine panic: %v", r)
+				if !e.reportedPanic {
+					e.reportedPanic = true
+					fmt.Fprintf(os.Stderr, "ENGINE PANIC (path marked inconclusive): %v\n%s\n", r, debug.Stack())
+				}
 			}
 		}()
 		e.call(h, nil, nil)
